@@ -48,13 +48,17 @@ theorem epoch_of_boundary (c : Schedule) (spe : UInt64) (f : Fork) (k : Nat) (hk
   simp only [UInt64.toNat_ofNat']
   rw [Nat.mod_eq_of_lt hk, Nat.mod_eq_of_lt (epochOf_lt c f), h, P, Nat.mul_div_cancel _ hs]
 
-/-- what the specification says the fork bookkeeping of a chain from a phase0 genesis is at slot `n` -/
+/-- what the specification says the fork bookkeeping is at slot `n` of a chain whose genesis state is in
+the fork active at epoch 0 (`f0 = forkAt c 0`, fork record `(version f0, version f0, 0)`): the state is
+in `forkAt c (epoch n)`; while that is still the genesis fork the fork record is the genesis one, afterwards
+it is `(version of the preceding fork, version of the fork, activation epoch of the fork)` -/
 def specState (c : Schedule) (spe : UInt64) (n : Nat) : FState :=
   let f := forkAt c (n / spe.toNat)
+  let f0 := forkAt c (0 / spe.toNat)
   { ty := f,
-    prev := if f = .phase0 then c.genesisVersion else c.versionOf f.pred,
+    prev := if f = f0 then c.versionOf f0 else c.versionOf f.pred,
     cur := c.versionOf f,
-    epoch := if f = .phase0 then 0 else UInt64.ofNat (c.epochOf f),
+    epoch := if f = f0 then 0 else UInt64.ofNat (c.epochOf f),
     slot := UInt64.ofNat n }
 
 def chain5 : UpChain := [(.phase0, .altair, .altair), (.altair, .bellatrix, .bellatrix), (.bellatrix, .capella, .capella),
@@ -62,7 +66,7 @@ def chain5 : UpChain := [(.phase0, .altair, .altair), (.altair, .bellatrix, .bel
 def sup4 : List Fork := [.altair, .bellatrix, .capella, .deneb]
 
 theorem step (c : Schedule) (spe : UInt64) (m N : Nat) (hmono : c.Monotone) (hs : 0 < spe.toNat)
-    (hgen : 0 < c.altairEpoch.toNat) (hm : m + 1 ≤ N) (hN : N < 2 ^ 64)
+    (hm : m + 1 ≤ N) (hN : N < 2 ^ 64)
     (hw : ∀ f, P c spe f % 2 ^ 64 ≤ N → P c spe f < 2 ^ 64) (hE : m + 1 < P c spe .electra) :
     upgradeMaybe chain5 sup4 c spe chain5 { specState c spe m with slot := UInt64.ofNat (m + 1) } =
       .ok (specState c spe (m + 1)) := by
@@ -70,7 +74,6 @@ theorem step (c : Schedule) (spe : UInt64) (m N : Nat) (hmono : c.Monotone) (hs 
     propext (slot_eq_boundary c spe f (m + 1) N hm hN (hw f))
   have hspe : spe ≠ 0 := by intro h; rw [h] at hs; simp at hs
   obtain ⟨h1, h2, h3, h4, h5⟩ := hmono
-  have hA : 0 < P c spe .altair := Nat.mul_pos hgen hs
   have hAB : P c spe .altair ≤ P c spe .bellatrix := Nat.mul_le_mul_right _ h1
   have hBC : P c spe .bellatrix ≤ P c spe .capella := Nat.mul_le_mul_right _ h2
   have hCD : P c spe .capella ≤ P c spe .deneb := Nat.mul_le_mul_right _ h3
@@ -94,7 +97,19 @@ theorem step (c : Schedule) (spe : UInt64) (m N : Nat) (hmono : c.Monotone) (hs 
   have l : ∀ X, (m + 1 < X) = (m < X ∧ ¬ X = m + 1) := fun X => propext (by omega)
   have l2 : ∀ X, (m + 1 = X) = (X = m + 1) := fun X => propext eq_comm
   simp only [l, l2]
-  by_cases a1 : m < A
+  by_cases z1 : 0 < A
+  all_goals by_cases z2 : 0 < B
+  all_goals first | (exfalso; omega) | skip
+  all_goals by_cases z3 : 0 < C
+  all_goals first | (exfalso; omega) | skip
+  all_goals by_cases z4 : 0 < D
+  all_goals first | (exfalso; omega) | skip
+  all_goals by_cases z5 : 0 < E
+  all_goals first | (exfalso; omega) | skip
+  all_goals by_cases z6 : 0 < F
+  all_goals first | (exfalso; omega) | skip
+  all_goals by_cases a1 : m < A
+  all_goals first | (exfalso; omega) | skip
   all_goals by_cases a2 : m < B
   all_goals first | (exfalso; omega) | skip
   all_goals by_cases a3 : m < C
@@ -123,7 +138,7 @@ theorem ofNat_succ (m : Nat) : UInt64.ofNat m + 1 = UInt64.ofNat (m + 1) := by
   simp [UInt64.toNat_add, UInt64.toNat_ofNat']
 
 theorem run (c : Schedule) (spe : UInt64) (N : Nat) (hmono : c.Monotone) (hs : 0 < spe.toNat)
-    (hgen : 0 < c.altairEpoch.toNat) (hN : N < 2 ^ 64)
+    (hN : N < 2 ^ 64)
     (hw : ∀ f, P c spe f % 2 ^ 64 ≤ N → P c spe f < 2 ^ 64) (hE : N < P c spe .electra) :
     ∀ k m, m + k ≤ N →
       processSlots chain5 sup4 c spe k (specState c spe m) = .ok (specState c spe (m + k)) := by
@@ -132,7 +147,7 @@ theorem run (c : Schedule) (spe : UInt64) (N : Nat) (hmono : c.Monotone) (hs : 0
   | zero => intro m _; simp [processSlots]
   | succ k ih =>
     intro m hmk
-    have hstep := step c spe m N hmono hs hgen (by omega) hN hw (by omega)
+    have hstep := step c spe m N hmono hs (by omega) hN hw (by omega)
     have hslot : (specState c spe m).slot + 1 = UInt64.ofNat (m + 1) := by
       show UInt64.ofNat m + 1 = UInt64.ofNat (m + 1)
       exact ofNat_succ m
@@ -146,7 +161,45 @@ theorem run (c : Schedule) (spe : UInt64) (N : Nat) (hmono : c.Monotone) (hs : 0
 def genesisState (c : Schedule) : FState :=
   { ty := .phase0, prev := c.genesisVersion, cur := c.genesisVersion, epoch := 0, slot := 0 }
 
-theorem genesis_eq (c : Schedule) (spe : UInt64) (hmono : c.Monotone) (hgen : 0 < c.altairEpoch.toNat) :
-    genesisState c = specState c spe 0 := by
-  simp [genesisState, specState, forkAt_cases c hmono, hgen, Schedule.versionOf]
+/-- a genesis state in the fork active at epoch 0 (phase0 genesis upgraded at slot 0, as the consensus
+specification's later-fork test genesis and `internal/chain` do): fork = (version, version, 0) -/
+def genesisStateOf (c : Schedule) : FState :=
+  let f0 := forkAt c 0
+  { ty := f0, prev := c.versionOf f0, cur := c.versionOf f0, epoch := 0, slot := 0 }
+
+theorem genesisOf_eq (c : Schedule) (spe : UInt64) : genesisStateOf c = specState c spe 0 := by
+  simp [genesisStateOf, specState]
+
+theorem genesis_eq (c : Schedule) (hmono : c.Monotone) (hgen : 0 < c.altairEpoch.toNat) :
+    genesisState c = genesisStateOf c := by
+  simp [genesisState, genesisStateOf, forkAt_cases c hmono, hgen, Schedule.versionOf]
+
+/-- a phase0 state is only ever upgraded at slot `ALTAIR_FORK_EPOCH * SLOTS_PER_EPOCH`; with
+`ALTAIR_FORK_EPOCH = 0` that is slot 0, which `ProcessSlots` never *arrives* at: the state stays phase0 -/
+theorem stuck_step (c : Schedule) (spe : UInt64) (s : FState) (hty : s.ty = .phase0)
+    (ha : c.altairEpoch = 0) (hslot : s.slot ≠ 0) :
+    upgradeMaybe chain5 sup4 c spe chain5 s = .ok s := by
+  have hb : boundarySlot c spe .altair = 0 := by simp [boundarySlot, Schedule.epochOf, ha]
+  simp [upgradeMaybe, chain5, hty, hb, hslot]
+
+theorem stuck_run (c : Schedule) (spe : UInt64) (ha : c.altairEpoch = 0) :
+    ∀ k m, m + k < 2 ^ 64 →
+      processSlots chain5 sup4 c spe k { genesisState c with slot := UInt64.ofNat m } =
+        .ok { genesisState c with slot := UInt64.ofNat (m + k) } := by
+  intro k
+  induction k with
+  | zero => intro m _; simp [processSlots]
+  | succ k ih =>
+    intro m hmk
+    have hne : UInt64.ofNat (m + 1) ≠ 0 := by
+      intro h
+      have := congrArg UInt64.toNat h
+      simp [UInt64.toNat_ofNat'] at this
+      omega
+    have hstep := stuck_step c spe { genesisState c with slot := UInt64.ofNat (m + 1) } rfl ha hne
+    have hslot : UInt64.ofNat m + 1 = UInt64.ofNat (m + 1) := ofNat_succ m
+    simp only [processSlots, hslot, hstep]
+    have := ih (m + 1) (by omega)
+    have e : m + 1 + k = m + (k + 1) := by omega
+    rw [this, e]
 end Zrnt.Proofs.Upgrade
